@@ -109,10 +109,10 @@ func vStream(n int) {
 	vrt.Observe("msgs", msgs)
 }
 
-//verif: prop=C17 bounds="stream of 2 symbolic bytes; every partition into writes (incl. empty writes) and Sync placement; level enabled or disabled"
+//verif: prop=C17,C13 bounds="stream of 2 symbolic bytes; every partition into writes (incl. empty writes) and Sync placement; level enabled or disabled"
 func VC17Stream2() { vStream(2) }
 
-//verif: prop=C17 bounds="stream of 3 symbolic bytes (as VC17Stream2)"
+//verif: prop=C17,C13 bounds="stream of 3 symbolic bytes (as VC17Stream2)"
 func VC17Stream3() { vStream(3) }
 
 //verif: prop=C17 tier=thorough bounds="stream of 4 symbolic bytes"
